@@ -16,7 +16,7 @@ from __future__ import annotations
 import ast
 
 from ..cfg import build_cfg, names_in
-from ..common import Ctx, call_name, is_name, src
+from ..common import Ctx, call_name, inline_locals, is_name, src
 from ..explore import Explorer
 from ..model import AnalysisError, own_scope_nodes
 from .drivers import DRIVERS, base_name, callee_name, driver, flat_targets
@@ -46,19 +46,53 @@ def _enclosing_fors(f, target):
 
 
 def _filtered_sweep_defs(f, sweep, fixed):
-    """All definitions of the sweep list; each must be a comprehension over range(...) filtered
-    by ``not in fixed``.  Returns (ok, defs)."""
-    defs = [s for s in own_scope_nodes(f.node) if isinstance(s, ast.Assign) and any(is_name(t, sweep) for t in s.targets)]
+    """All definitions of the sweep list.  It must only ever receive mode numbers that are not in
+    `fixed`: either a comprehension `[m for m in <range / list of all modes> if m not in fixed]`,
+    or an empty list filled by `sweep.append(m)` inside `for m in ...:` where every append is
+    reached only when `m in fixed` is false (`if m in fixed: continue`, or `if m not in fixed:`).
+    Returns (ok, defs)."""
+    nodes = list(own_scope_nodes(f.node))
+    defs = [s for s in nodes if isinstance(s, ast.Assign) and any(is_name(t, sweep) for t in s.targets)]
     ok = bool(defs)
+
+    def not_in_fixed(c, var):
+        return isinstance(c, ast.Compare) and len(c.ops) == 1 and isinstance(c.ops[0], ast.NotIn) and is_name(c.left, var) and is_name(c.comparators[0], fixed)
+
+    def in_fixed(c, var):
+        return isinstance(c, ast.Compare) and len(c.ops) == 1 and isinstance(c.ops[0], ast.In) and is_name(c.left, var) and is_name(c.comparators[0], fixed)
+
     for s in defs:
         v = s.value
         good = False
         if isinstance(v, ast.ListComp) and len(v.generators) == 1:
             g = v.generators[0]
-            if isinstance(g.iter, ast.Call) and is_name(g.iter.func, "range") and isinstance(g.target, ast.Name) and isinstance(v.elt, ast.Name) and v.elt.id == g.target.id:
-                for c in g.ifs:
-                    if isinstance(c, ast.Compare) and len(c.ops) == 1 and isinstance(c.ops[0], ast.NotIn) and is_name(c.left, g.target.id) and is_name(c.comparators[0], fixed):
-                        good = True
+            if isinstance(g.target, ast.Name) and isinstance(v.elt, ast.Name) and v.elt.id == g.target.id:
+                good = any(not_in_fixed(c, g.target.id) for c in g.ifs)
+        elif isinstance(v, ast.List) and not v.elts:
+            # filled by appends: each must be guarded
+            apps = [c for c in nodes if isinstance(c, ast.Call) and isinstance(c.func, ast.Attribute) and c.func.attr in ("append", "extend", "insert") and is_name(c.func.value, sweep)]
+            good = bool(apps)
+            for c in apps:
+                if c.func.attr != "append" or len(c.args) != 1 or not isinstance(c.args[0], ast.Name):
+                    good = False
+                    continue
+                var = c.args[0].id
+                # the enclosing `for var in ...` loop
+                loop = next((n for n in nodes if isinstance(n, ast.For) and is_name(n.target, var) and any(x is c for x in ast.walk(n))), None)
+                if loop is None:
+                    good = False
+                    continue
+                guarded = False
+                # (a) an earlier `if var in fixed: continue` at the top level of the loop body
+                for st in loop.body:
+                    if any(x is c for x in ast.walk(st)):
+                        # (b) the append sits under `if var not in fixed:`
+                        if isinstance(st, ast.If) and not_in_fixed(st.test, var) and any(x is c for b in st.body for x in ast.walk(b)):
+                            guarded = True
+                        break
+                    if isinstance(st, ast.If) and in_fixed(st.test, var) and st.body and isinstance(st.body[-1], ast.Continue) and not st.orelse:
+                        guarded = True
+                good = good and guarded
         ok = ok and good
     return ok, defs
 
@@ -157,7 +191,7 @@ def pure_move(ctx: Ctx):
         if isinstance(s, ast.Assign) and isinstance(s.value, ast.Call) and callee_name(s.value) == "initialize_cp":
             init_i = i
             init_targets = [base_name(x) for t in s.targets for x in flat_targets(t)]
-        if isinstance(s, ast.If) and "fixed_modes" in names_in(s.test) and "range" in src(s.test) and any(isinstance(x, ast.Return) for x in ast.walk(s)):
+        if isinstance(s, ast.If) and "fixed_modes" in names_in(s.test) and "range" in src(inline_locals(f.node, s.test)) and any(isinstance(x, ast.Return) for x in ast.walk(s)):
             short_i, short = i, s
     if init_i is None or short is None or short_i < init_i:
         raise AnalysisError("PURE-MOVE: parafac's all-fixed shortcut (if fixed_modes == list(range(ndim)): return ...) vanished")
